@@ -20,7 +20,7 @@ META = dict(
 )
 
 
-def smooth(h, with_actuators=True, seed=0):
+def smooth(h, with_actuators=True, seed=0, spinning=False):
     from cardillo.forces import Force
     from cardillo.force_laws import Spring
     from cardillo.actuators import Motor, PDcontroller
@@ -38,7 +38,8 @@ def smooth(h, with_actuators=True, seed=0):
             els[-2].name, els[-1].name = "motor", "pd"
         rp.els = els
         return els
-    rp = lib.RevolutePair(h, seed=seed, axis=2, first="F", extra=extra)
+    # spinning: the body starts with a symbolic admissible joint rate, so that velocity-dependent actuator forces (kd) are nonzero at t0
+    rp = lib.RevolutePair(h, seed=seed, axis=2, first="F", extra=extra, w0=h.real("w0") if spinning else None)
     sysm = rp.sysm
     raised = None
     with h.capture():
@@ -201,6 +202,7 @@ def cases(tier, seed):
     T = 120 if tier == "quick" else 600
     return [
         Case("smooth/actuators", smooth, dict(with_actuators=True, seed=seed), timeout=T, hard=T * 10, max_paths=64),
+        Case("smooth/actuators/spinning", smooth, dict(with_actuators=True, seed=seed, spinning=True), timeout=T, hard=T * 10, max_paths=64),
         Case("smooth/no_actuators", smooth, dict(with_actuators=False, seed=seed), timeout=T, hard=T * 10, max_paths=64),
         Case("guard/position", guard_bilateral, dict(level="position", seed=seed), timeout=T, max_paths=128, sentinel=False),
         Case("guard/velocity", guard_bilateral, dict(level="velocity", seed=seed), timeout=T, max_paths=128, sentinel=False),
